@@ -228,7 +228,7 @@ def run(ctx):
     from .c03 import r03_5
     r03_5(ctx)
     from .c05 import helpers_hold_live_objects
-    helpers_hold_live_objects(ctx, 'R04.8')
+    helpers_hold_live_objects(ctx, 'R04.8', only=('ResultHandler',), floor=2)
 
 
 _P = 'billiard/pool.py'
@@ -236,8 +236,7 @@ MUTANTS = [
     ('lost-only-for-nonzero-status', _P, "                    if not job.ready():\n                        exitcode = exitcodes.get(acked_by_gone) or 0\n",
      "                    exitcode = exitcodes.get(acked_by_gone)\n                    if exitcode and not job.ready():\n", 'R04.4'),
     ('cancelled-refused-without-handshake', _P, "            if self._cancelled and self._send_ack:\n", "            if self._cancelled:\n", 'R03.5'),
-    ('task-feeder-snapshots-the-worker-list', _P, "        self.put = put\n        self.outqueue = outqueue\n        self.pool = pool\n",
-     "        self.put = put\n        self.outqueue = outqueue\n        self.pool = list(pool)\n", 'R04.8'),
+    ('result-handler-copies-the-cache', _P, "        self.get = get\n        self.cache = cache\n", "        self.get = get\n        self.cache = dict(cache)\n", 'R04.8'),
     ('reaper-reads-worker-pid', _P, "                    self.on_job_process_down(job, acked_by_gone)\n",
      "                    self.on_job_process_down(job, job._worker_pid)\n", 'R04.1'),
     ('unordered-drops-failure', _P, "    def _set(self, i, obj):\n        with self._cond:\n            self._items.append(obj)\n            self._index += 1\n",
